@@ -182,7 +182,11 @@ def gen_case(rng, stream):
         st = style if style != 'mixed' else rng.choice(['flat', 'nest', 'rand'])
         rel = f[0] if (style == 'same' and f[0] not in used and not any(f[0].startswith(u + '/') or u.startswith(f[0] + '/') for u in used)) else fresh(st)
         used.add(rel)
-        mt = rng.choice([None, L.rand_mtime_ns(rng)])
+        mt = rng.choice([None, L.rand_mtime_ns(rng), 'rec-trunc', 'rec-exact'])
+        if mt == 'rec-trunc':        # the scraped copy carries the recorded time cut to the whole second (tar / zip / FAT / network share)
+            mt = f[2] // 10 ** 9 * 10 ** 9
+        elif mt == 'rec-exact':
+            mt = f[2]
         if r < 0.24:
             size = f[1][2]
             off = rng.choice([o for o in (0, size - 1, 65535, 65536, 65537, rng.randrange(max(size, 1))) if 0 <= o < max(size, 1)])
@@ -223,6 +227,11 @@ def corpus():
     coll = [f('keys/container.bin', ['h', m1], 1_450_000_000), f('notes.txt', ['r', 7, 40], 1_350_000_000)]
     out.append({'root': 'T', 'files': coll, 'scraped': [['zz/unknown.bin', ['x', m2], None], ['a/notes', ['o', 1], None]]})
     out.append({'root': 'T', 'files': coll, 'scraped': [['a/genuine', ['o', 0], None], ['zz/unknown.bin', ['x', m2], None], ['b/notes', ['o', 1], None]]})
+    # scraped copies whose own mtime is the recorded one cut to the whole second: the recorded (sub-second) time must still be restored
+    out.append({'root': 'T', 'files': base, 'scraped': [['t/%d' % i, ['o', i], b[2] // 10 ** 9 * 10 ** 9] for i, b in enumerate(base)]})
+    # several recorded files of exactly the same size (fixed-size sectors / thumbnails), contents pairwise distinct
+    same = [f('sectors/s%03d.img' % i, ['r', 50 + i, 512], 1_450_000_000 + i) for i in range(4)] + [f('thumbs/a.thumb', ['r', 60, 512], 1_440_000_000, 5)]
+    out.append({'root': 'T', 'files': same, 'scraped': [['x%d' % i, ['o', i], None] for i in range(5)] + [['junk', ['u', 3, 512], None]]})
     return out
 
 
